@@ -407,7 +407,7 @@ def main(argv):
         return replay(argv[1])
     if argv and argv[0] == '--build':
         fl = argv[1] if len(argv) > 1 else 'n'
-        names = argv[2:] or [n for n in BINARIES]
+        names = argv[2:] or [n for n in BINARIES if n.startswith('fuzz') == (fl == 'f') and not (fl == 's' and n == 'introspect')]
         t0 = time.time()
         try:
             build(names, fl)
